@@ -16,8 +16,8 @@ from contracts.nonshear_env import patched
 LEVEL = "other"
 EXPLANATION = ("proof of the lemmas that carry the property (well-founded dependency rank, parameter normalisation for symbolic "
                "strain arrays of symbolic length, equality contract, isotropy/covariance for all contract parameters) on the real "
-               "tasks.py/shear.py; the scheduler's work-list over all request sets/orders is a bounded stand-in (stated bound), never "
-               "counted as discharged")
+               "tasks.py/shear.py; resolve()'s work-list loop under the Hoare loop rule on an abstract work list (any request list, any dependency lists); the "
+               "calculate / get_results loops over all request sets/orders remain a bounded stand-in (stated bound), never counted as discharged")
 T = "tasks."
 A_, P_, G_ = z3.Reals("A_ph P_ph Gap")
 
@@ -78,6 +78,319 @@ def assemble(strain, keys, stubs=(LongC, OffC)):
         return tl, tl.get_isothermal_results(), tl.get_adiabatic_results()
 
 
+# ----------------------------------------------------------------------------------------------------------------------
+# resolve(): the work-list loop under the loop rule (vf/looprule.py) -- request list, strain field and dependency lists of ANY length
+def resolve_loop_rule(s_tier):
+    from vf import looprule
+    from contracts import tasks_loop_env as E
+    tasks = importlib.import_module("cij.core.tasks")
+    I_ = z3.IntSort()
+    fn = tasks.PhononContributionTaskList.resolve
+    stubs = {"itertools": E.ItertoolsStub, "nx": E.NxStub, "list": E.list_stub, "len": E.len_stub, "enumerate": E.enumerate_stub, "PhononContributionTaskParams": E.ParamsStub, "PhononContributionTask": E.TaskStub}
+    for name, val in fn.__globals__.items():
+        import networkx, itertools as _it
+        if val is networkx:
+            stubs[name] = E.NxStub
+        if val is _it:
+            stubs[name] = E.ItertoolsStub
+    pieces = looprule.Pieces(fn, 0, stubs=stubs)
+    if not isinstance(pieces.loop, __import__("ast").While):
+        raise core.OutsideSubset("resolve's loop is no longer a while loop over the work list")
+    c_, j_ = z3.Const("c_", E.Cls), z3.Int("j_")
+    axioms = [z3.ForAll([c_], z3.And(E.NDEP(c_) >= 0, E.RANK(c_) >= 0)),
+              z3.ForAll([c_, j_], z3.Implies(z3.And(j_ >= 0, j_ < E.NDEP(c_)), E.RANK(E.depcls(c_, j_)) < E.RANK(c_))), E.NREQ >= 0]
+
+    def rng(n, *xs):
+        return z3.And(*[z3.And(x >= 0, x < n) for x in xs])
+
+    def invariant(v, g):
+        """v: view with L, N, QS, QK, QD, TS, TK, EDGE, NODE; g: ghost with QJ, QR, WD, AD, WR, AR (closures). -> [(name, arity, formula builder)]"""
+        tc = lambda t: E.CLS(v.TS(t), v.TK(t))
+        return [
+            ("no two tasks of one class", 2, lambda a, b: z3.Implies(z3.And(rng(v.N, a, b), a != b), tc(a) != tc(b))),
+            ("every pending entry is a request or a dependency of an existing task", 1, lambda p: z3.Implies(rng(v.L, p), z3.And(v.QD(p) >= -1, z3.If(
+                v.QD(p) == -1,
+                z3.And(rng(E.NREQ, g.QR(p)), v.QS(p) == E.STRAIN0, v.QK(p) == E.KEYS(g.QR(p))),
+                z3.And(v.QD(p) < v.N, rng(E.NDEP(tc(v.QD(p))), g.QJ(p)), v.QS(p) == E.DEPS(tc(v.QD(p)), g.QJ(p)), v.QK(p) == E.DEPK(tc(v.QD(p)), g.QJ(p))))))),
+            ("every dependency of every task is pending or resolved by an edge", 2, lambda t, j: z3.Implies(z3.And(rng(v.N, t), rng(E.NDEP(tc(t)), j)), z3.Or(
+                z3.And(rng(v.L, g.WD(t, j)), v.QD(g.WD(t, j)) == t, g.QJ(g.WD(t, j)) == j),
+                z3.And(g.WD(t, j) == -1, rng(v.N, g.AD(t, j)), tc(g.AD(t, j)) == E.depcls(tc(t), j), v.EDGE(g.AD(t, j), t))))),
+            ("every request is pending or has its task", 1, lambda r: z3.Implies(rng(E.NREQ, r), z3.Or(
+                z3.And(rng(v.L, g.WR(r)), v.QD(g.WR(r)) == -1, g.QR(g.WR(r)) == r),
+                z3.And(g.WR(r) == -1, rng(v.N, g.AR(r)), tc(g.AR(r)) == E.CLS(E.STRAIN0, E.KEYS(r)))))),
+            ("edges lead from a task of lower rank to its dependant", 2, lambda a, b: z3.Implies(v.EDGE(a, b), z3.And(rng(v.N, a, b), E.RANK(tc(a)) < E.RANK(tc(b))))),
+            ("graph nodes are the task indices", 1, lambda a: v.NODE(a) == rng(v.N, a)),
+            ("sizes", 0, lambda: z3.And(v.L >= 0, v.N >= 0)),
+        ]
+
+    def quantified(inv):
+        out = []
+        vs = [z3.Int("q%d" % i) for i in range(2)]
+        for name, ar, f in inv:
+            out.append(f(*vs[:ar]) if ar == 0 else z3.ForAll(vs[:ar], f(*vs[:ar])))
+        return out
+
+    def goals(inv, tag):
+        sk = [z3.Int("sk%d_%s" % (i, tag)) for i in range(2)]
+        return [("%s: %s" % (tag, name), f(*sk[:ar])) for name, ar, f in inv]
+
+    def prove_all(gs, facts, what):
+        t = 0.0
+        for name, g in gs:
+            r = smt.prove(g, facts, tier=s_tier, name=name, timeout_ms=20000 if s_tier == "quick" else 90000)
+            t += r.time_s
+            if r.status != core.PROVED:
+                r.detail = "%s: premise `%s` of the loop rule is not valid | %s" % (what, name, r.detail)
+                if r.status == core.REFUTED:
+                    r.replay, r.witness_id = native_plumbing_small(), "resolve-loop:%s" % name.split(":")[1].strip()[:40]
+                return r, t
+        return None, t
+
+    class Ghost:
+        pass
+    total, nprem, npaths = 0.0, 0, 0
+    me = types.SimpleNamespace(calculator=None)
+    # ---------------- premise 1: {true} prefix {Inv}
+    empty = types.SimpleNamespace(L=z3.IntVal(0), N=z3.IntVal(0), QS=lambda p: E.STRAIN0, QK=lambda p: E.KEYS(p), QD=lambda p: z3.IntVal(-1), TS=lambda t: E.STRAIN0,
+                                  TK=lambda t: E.KEYS(t), EDGE=lambda a, b: z3.BoolVal(False), NODE=lambda a: z3.BoolVal(False))
+    lv = E.Live(empty)
+    E.LIVE[0] = lv
+    out = pieces.run_prefix({"self": me, "strain": E.AbsStrain(E.STRAIN0), "keys": E.ReqSeq()})
+    if out.kind != "fall":
+        return core.refuted("looprule", "resolve returns before its work loop", witness_id="resolve-loop:prefix", replay=native_plumbing_small())
+    env0 = out.env
+    for k, v in list(env0.items()):
+        if E.generic_initial_queue(v):          # `[(strain, key, None) for key in keys]`: the same initial work list as list(product([strain], keys, [None]))
+            E.list_stub(E.Product(([E.AbsStrain(E.STRAIN0)], E.ReqSeq(), [None])))
+            env0[k] = E.WorkList()
+    names = {"q": [k for k, v in env0.items() if isinstance(v, E.WorkList)], "tasks": [k for k, v in env0.items() if isinstance(v, list) and v == [] and k != "keys"],
+             "graph": [k for k, v in env0.items() if isinstance(v, E.Graph)]}
+    if any(len(v) != 1 for v in names.values()):
+        raise core.OutsideSubset("loop state of resolve: %s among the locals %s" % (names, sorted(env0)))
+    qn, tn, gn = names["q"][0], names["tasks"][0], names["graph"][0]
+    if getattr(me, "strain", None) is None or not isinstance(getattr(me, "keys", None), E.ReqSeq):
+        return core.refuted("looprule", "resolve does not record the strain field and the request list before the work loop (get_*_results read them)", witness_id="resolve-loop:self",
+                            replay=native_plumbing_small())
+    E.search_sites(pieces.loop.body, tn)
+    g0 = Ghost()
+    g0.QJ, g0.QR = (lambda p: z3.IntVal(0)), (lambda p: p)
+    g0.WD, g0.AD = (lambda t, j: z3.IntVal(-1)), (lambda t, j: z3.IntVal(0))
+    g0.WR, g0.AR = (lambda r: r), (lambda r: z3.IntVal(0))
+    r, t = prove_all(goals(invariant(lv, g0), "initially") + [("initially: bound " + d, b) for d, b in lv.bounds], axioms, "prefix")
+    total += t
+    nprem += 7
+    if r:
+        return r
+    # ---------------- premise 2: {Inv, work list not empty} body {Inv}
+    pre = E.State("pre")
+    gpre = Ghost()
+    gpre.QJ, gpre.QR, gpre.WD, gpre.AD, gpre.WR, gpre.AR = pre.QJ, pre.QR, pre.WD, pre.AD, pre.WR, pre.AR
+    pre_view = types.SimpleNamespace(L=pre.L, N=pre.N, QS=pre.QS, QK=pre.QK, QD=pre.QD, TS=pre.TS, TK=pre.TK, EDGE=pre.EDGE, NODE=pre.NODE)
+    hyp = quantified(invariant(pre_view, gpre))
+    results = []
+
+    def one_path():
+        lv = E.Live(pre)
+        E.LIVE[0] = lv
+        env = dict(env0)
+        env[qn], env[tn], env[gn] = E.WorkList(), E.TaskList(), E.Graph()
+        env["self"] = types.SimpleNamespace(calculator=None)
+        hdr = pieces.loop_header(env)[1]
+        guard = symnp.truth(symnp.term_bool(hdr)) if hasattr(symnp, "term_bool") else bool(hdr)
+        if not guard:
+            return ("exit", lv, None)
+        o = pieces.run_body(env)
+        return ("body", lv, o)
+    paths = symnp.Paths(axioms, max_paths=64)
+    outs = paths.run(one_path)
+    for pc, (kind, lv, o) in outs:
+        if kind == "exit":
+            continue
+        npaths += 1
+        if o.kind != "fall":
+            return core.refuted("looprule", "the loop body leaves the loop (%s)" % o.kind, witness_id="resolve-loop:body", replay=native_plumbing_small())
+        ev = lv.events
+        pops = [e for e in ev if e[0] == "pop"]
+        srch = [e for e in ev if e[0] == "search"]
+        apps = [e for e in ev if e[0] == "append_task"]
+        push = [e for e in ev if e[0] == "push_deps"]
+        if len(pops) != 1 or len(srch) != 1 or len(apps) > 1 or len(push) != 1 or any(e[0] in ("push_one", "init_queue", "toposort") for e in ev):
+            raise core.OutsideSubset("the loop body's effects %s do not have the shape pop / search / [new task] / [edge] / push dependencies" % [e[0] for e in ev])
+        _, p, s_, k_, d_ = pops[0]
+        curr = apps[0][1] if apps else srch[0][2]
+        cdep, L0, dpush = push[0][1], push[0][2], push[0][3]
+        cpop = E.CLS(s_, k_)
+        g1 = Ghost()
+        g1.QR = gpre.QR
+        g1.QJ = lambda x: z3.If(z3.And(x >= L0, x < L0 + E.NDEP(cdep)), x - L0, gpre.QJ(x))
+        g1.WR = lambda x: z3.If(z3.And(d_ == -1, x == gpre.QR(p)), z3.IntVal(-1), gpre.WR(x))
+        g1.AR = lambda x: z3.If(z3.And(d_ == -1, x == gpre.QR(p)), curr, gpre.AR(x))
+        g1.WD = lambda a, b: z3.If(z3.And(a == curr, b >= 0, b < E.NDEP(cdep)), L0 + b, z3.If(z3.And(d_ >= 0, a == d_, b == gpre.QJ(p)), z3.IntVal(-1), gpre.WD(a, b)))
+        g1.AD = lambda a, b: z3.If(z3.And(d_ >= 0, a == d_, b == gpre.QJ(p)), curr, gpre.AD(a, b))
+        inst = []
+        sk = [z3.Int("sk%d_after" % i) for i in range(2)]
+        terms = [sk[0], sk[1], p, curr, d_, gpre.QJ(p), gpre.QR(p), L0, pre.N]
+        for ar, f in lv.schemas:
+            for tt in terms:
+                inst.append(f(tt))
+        facts = axioms + hyp + pc + lv.facts + inst
+        gs = goals(invariant(lv, g1), "after")
+        gs += [("after: the dependencies pushed are those of the task just reached, tagged with its index", z3.And(cdep == cpop, dpush == curr))]
+        gs += [("after: bound " + d, b) for d, b in lv.bounds]
+        r, t = prove_all(gs, facts, "body, path %s" % [e[0] for e in ev])
+        total += t
+        nprem += len(gs)
+        if r:
+            return r
+    if npaths < 4:
+        raise core.OutsideSubset("only %d paths through the loop body were explored (found / new task x request / dependency expected)" % npaths)
+    # ---------------- premise 3: {Inv, work list empty} suffix {post}
+    lv = E.Live(pre)
+    E.LIVE[0] = lv
+    env = dict(env0)
+    env[qn], env[tn], env[gn] = E.WorkList(), E.TaskList(), E.Graph()
+    me3 = types.SimpleNamespace(calculator=None)
+    env["self"] = me3
+    outs = pieces.run_suffix(env)
+    if outs.kind not in ("fall", "return"):
+        return core.refuted("looprule", "code after the work loop: %s" % outs.kind, witness_id="resolve-loop:suffix")
+    evn = [e[0] for e in lv.events]
+    data = getattr(me3, "data", None)
+    if evn.count("toposort") != 1 or evn.count("iterate_order") != 1 or not (isinstance(data, list) and len(data) == 1 and isinstance(data[0], E.AbsTask)):
+        raise core.OutsideSubset("after the work loop: events %s, self.data = %r (expected: self.data = [tasks[i] for i in topological_sort(graph)])" % (evn, data))
+    # the generic-element reading of `[tasks[i] for i in order]` is sound only for that very shape (an order-preserving map assigned as it is): checked on the AST
+    import ast as _ast
+    shape_ok = False
+    for st in pieces.suffix:
+        if isinstance(st, _ast.Assign) and len(st.targets) == 1 and isinstance(st.targets[0], _ast.Attribute) and st.targets[0].attr == "data" and isinstance(st.value, _ast.ListComp):
+            lc = st.value
+            g = lc.generators
+            shape_ok = len(g) == 1 and not g[0].ifs and isinstance(g[0].target, _ast.Name) and isinstance(lc.elt, _ast.Subscript) and isinstance(lc.elt.value, _ast.Name) and \
+                lc.elt.value.id == tn and isinstance(lc.elt.slice, _ast.Name) and lc.elt.slice.id == g[0].target.id and isinstance(g[0].iter, (_ast.Name, _ast.Call))
+            if shape_ok and isinstance(g[0].iter, _ast.Name):
+                src = [x for x in pieces.suffix if isinstance(x, _ast.Assign) and any(isinstance(t_, _ast.Name) and t_.id == g[0].iter.id for t_ in x.targets)]
+                shape_ok = len(src) == 1 and isinstance(src[0].value, _ast.Call) and _ast.unparse(src[0].value.func).endswith("topological_sort")
+            elif shape_ok:
+                shape_ok = _ast.unparse(g[0].iter.func).endswith("topological_sort")
+    if not shape_ok:
+        raise core.OutsideSubset("after the work loop self.data is not assigned as `[tasks[i] for i in topological_sort(graph)]`")
+    gvar = [e for e in lv.events if e[0] == "iterate_order"][0][1]
+    # A-NX: ORD is a bijection of [0, N) (inverse POS) that places a before b for every edge a -> b -- applicable because the graph is acyclic (edges raise RANK)
+    a_, b_ = z3.Ints("a_ b_")
+    nx_contract = [z3.ForAll([a_], z3.Implies(rng(pre.N, a_), z3.And(rng(pre.N, E.ORD(a_)), rng(pre.N, E.POS(a_)), E.POS(E.ORD(a_)) == a_, E.ORD(E.POS(a_)) == a_))),
+                   z3.ForAll([a_, b_], z3.Implies(pre.EDGE(a_, b_), E.POS(a_) < E.POS(b_)))]
+    facts = axioms + hyp + [pre.L == 0, rng(pre.N, gvar)] + nx_contract          # gvar: the generic position of the comprehension over the order
+    r0, t0, j0 = z3.Ints("r0 t0 j0")
+    tc = pre.tcls
+    post = [
+        ("post: self.data[g] is the task ORD(g) of the graph order", z3.Implies(rng(pre.N, gvar), z3.And(data[0].strain.z == pre.TS(E.ORD(gvar)), data[0].key.z == pre.TK(E.ORD(gvar))))),
+        ("post: every request has a task", z3.Implies(rng(E.NREQ, r0), z3.And(rng(pre.N, pre.AR(r0)), tc(pre.AR(r0)) == E.CLS(E.STRAIN0, E.KEYS(r0))))),
+        ("post: every dependency of every task has a task that comes EARLIER in self.data", z3.Implies(z3.And(rng(pre.N, t0), rng(E.NDEP(tc(t0)), j0)), z3.And(
+            rng(pre.N, pre.AD(t0, j0)), tc(pre.AD(t0, j0)) == E.depcls(tc(t0), j0), E.POS(pre.AD(t0, j0)) < E.POS(t0)))),
+        ("post: the graph handed to topological_sort is acyclic (every edge raises the rank)", z3.Implies(pre.EDGE(r0, t0), E.RANK(tc(r0)) < E.RANK(tc(t0)))),
+        ("post: one task per class", z3.Implies(z3.And(rng(pre.N, r0, t0), r0 != t0), tc(r0) != tc(t0))),
+    ]
+    r, t = prove_all(post + [("exit: bound " + d, b) for d, b in lv.bounds], facts, "suffix")
+    total += t
+    nprem += len(post)
+    if r:
+        return r
+    note = dict(pieces.dropped(), premises=nprem, body_paths=npaths,
+                invariant=[n for n, _, _ in invariant(pre_view, gpre)],
+                post=[n for n, _ in post], not_proved="termination (each pop replaces an entry by entries of strictly smaller rank: multiset order, not mechanised)")
+    return core.proved("z3", "loop rule on PhononContributionTaskList.resolve for request lists, strain fields and dependency lists of ANY length: %d premises over %d paths of the loop body "
+                       "(initialisation, preservation, exit) generated by executing the method's own statements on an abstract work list; post: every request has a task, the task "
+                       "list is closed under get_dependencies, no class twice, every dependency precedes its dependant in self.data (A-NX)" % (nprem, npaths), time_s=total), note
+
+
+def resolve_traces(seed=0, n=8):
+    """engine self-check and vacuity guard of the loop rule: resolve's own prefix / body / suffix, executed by CPython on the REAL classes (contributions stubbed) for
+    concrete request lists, reproduce resolve() itself, and the invariant of the loop-rule obligation (ghost witnesses found by search) holds at every loop head"""
+    from vf import looprule
+    rnd = random.Random(seed)
+    keys = tasks_env.all_keys()
+    heads, bad = 0, []
+    with tasks_env.stubbed() as tk:
+        fn = tk.PhononContributionTaskList.resolve
+        P = tk.PhononContributionTaskParams
+        for trial in range(n):
+            req = rnd.sample(keys, rnd.randint(1, 7)) + ([keys[0]] if trial % 3 == 0 else [])
+            strain = numpy.array([[0.2, 0.3, 0.5], [0.25, 0.35, 0.4]] if trial % 2 else [[1 / 3, 1 / 3, 1 / 3]])
+            ref = tk.PhononContributionTaskList(types.SimpleNamespace())
+            ref.resolve(strain, list(req))
+            me = tk.PhononContributionTaskList(types.SimpleNamespace())
+            pc = looprule.Pieces(fn, 0)
+            env = pc.run(pc.prefix, {"self": me, "strain": strain, "keys": list(req)}).env
+            qn = [k for k, v in env.items() if isinstance(v, list) and v and isinstance(v[0], tuple) and len(v[0]) == 3][0]
+            tn = [k for k, v in env.items() if isinstance(v, list) and v == []][0]
+            gn = [k for k, v in env.items() if type(v).__name__ == "DiGraph"][0]
+            while True:
+                q, tasks_, graph = env[qn], env[tn], env[gn]
+                heads += 1
+                cls = lambda s_, k_: P.create(s_, k_)
+                deps = lambda t: list(t.get_dependencies())
+                for a in range(len(tasks_)):
+                    for b in range(a):
+                        if tasks_[a].task_params == tasks_[b].task_params:
+                            bad.append("two tasks of one class")
+                for (s_, k_, d) in q:
+                    if d is None:
+                        if not (s_ is strain and any(k_ == r for r in req)):
+                            bad.append("pending entry without dependant is not a request")
+                    elif not (0 <= d < len(tasks_) and any(cls(s_, k_) == cls(ds, dk) for ds, dk in deps(tasks_[d]))):
+                        bad.append("pending entry is not a dependency of its dependant")
+                for t, task in enumerate(tasks_):
+                    for ds, dk in deps(task):
+                        c = cls(ds, dk)
+                        pend = any(d == t and cls(s_, k_) == c for (s_, k_, d) in q)
+                        res = any(tasks_[a].task_params == c and graph.has_edge(a, t) for a in range(len(tasks_)))
+                        if not (pend or res):
+                            bad.append("a dependency is neither pending nor resolved")
+                for r in req:
+                    c = cls(strain, r)
+                    if not (any(d is None and cls(s_, k_) == c for (s_, k_, d) in q) or any(t.task_params == c for t in tasks_)):
+                        bad.append("a request is neither pending nor has a task")
+                for a, b in graph.edges():
+                    if not (rank(tasks_[a].key) < rank(tasks_[b].key)):
+                        bad.append("an edge does not raise the rank")
+                if sorted(graph.nodes()) != list(range(len(tasks_))):
+                    bad.append("graph nodes are not the task indices")
+                if bad:
+                    return heads, bad
+                _, test = pc.loop_header(env)
+                if not test:
+                    break
+                env = pc.run_body(env).env
+            pc.run_suffix(env)
+            if [t.key for t in me.data] != [t.key for t in ref.data] or me.keys != ref.keys:
+                bad.append("prefix + iterated body + suffix differ from resolve() itself for request %s" % [repr(k) for k in req])
+                return heads, bad
+    return heads, bad
+
+
+def native_plumbing_small():
+    """native replay for the scheduler: small request lists in several orders on the real classes (stubbed contributions): every request answered, dependencies first"""
+    try:
+        keys = tasks_env.all_keys()
+        rnd = random.Random(2)
+        for trial in range(12):
+            req = rnd.sample(keys, rnd.randint(1, 6))
+            strain = [[0.2, 0.3, 0.5], [0.25, 0.35, 0.4]] if trial % 2 else [[1 / 3, 1 / 3, 1 / 3]]
+            tl, iso, adi = tasks_env.run_tasks(strain, req)
+            if set(iso) != set(req) or set(adi) != set(req):
+                return {"reproduced": True, "request": [repr(k) for k in req], "observed": "answered keys %s" % sorted(repr(k) for k in iso)}
+            seen = []
+            for t in tl.data:
+                for st, k in t.get_dependencies():
+                    p = tl.data[0].task_params.__class__.create(st, k)
+                    if not any(q == p for q in seen):
+                        return {"reproduced": True, "request": [repr(k) for k in req], "observed": "task %r is scheduled before its dependency %r" % (t.key, k)}
+                seen.append(t.task_params)
+    except Exception as e:
+        return {"reproduced": True, "raised": repr(e)[:300]}
+    return {"reproduced": False, "evaluations": 12, "note": "12 random request lists on the real scheduler: every request answered, dependencies scheduled first"}
+
+
 def coeffs(sc):
     """(coefficient of A, P, Gap) of a linear form"""
     z = sc.z if isinstance(sc, Sc) else symnp.term(sc)
@@ -103,8 +416,10 @@ def run(s):
              "A-ALLCLOSE: strain fields within numpy.allclose tolerance are identified as one task",
              "C01/C02 contracts of the non-shear contributions (c_ii = A/(5 e_i e_j)+P/(3 e_i), c_ij = A/(15 e_i e_j)+P, adiabatic gap G/(9 e_i e_j))",
              "A-FP")
-    s.undecided_part("completeness / request-independence of the work-list for ALL 2^21 x n! request sets and orders and all strain fields: "
-                     "bounded enumeration only (lists, DiGraph, allclose-based equality are outside the deductive engines)")
+    s.undecided_part("resolve() is under the loop rule for request lists of any length (every request has a task, closure under get_dependencies, dependencies first); NOT "
+                     "mechanised: its termination (multiset order on ranks), and the two loops of calculate() / get_results_by_strain_keys() -- that every look-up of a "
+                     "dependency's result succeeds and that a component's value is a function of its class alone follow from the post-condition of resolve by induction "
+                     "on the rank; exercised by the bounded plumbing runs (request sets, orders, histories) with symbolic values")
 
     # ---------------- L1: well-founded dependency relation [F over the 15 shear keys; strains generic]
     def l1():
@@ -246,6 +561,22 @@ def run(s):
     s.canary("C04.canary.isotropy_with_c44=(c11+c12)/2", lambda: canary_iso(keys, c_))
     # ---------------- plumbing: bounded stand-in with symbolic values
     plumbing(s, tasks, keys, rnd)
+    def resolve_ob():
+        out = resolve_loop_rule(tier)
+        if isinstance(out, tuple):
+            s.notes["resolve_loop_rule"] = out[1]
+            return out[0]
+        return out
+    s.oblige("C04.resolve.loop_rule(all request lists)", resolve_ob, [T + "PhononContributionTaskList.resolve"], fallback=native_plumbing_small)
+    try:
+        heads, bad = resolve_traces(s.seed, 8 if tier == "quick" else 60)
+        s.crosscheck("looprule pieces of resolve vs resolve() on the real classes; loop-rule invariant evaluated at %d concrete loop heads (vacuity guard)" % heads, heads, bad)
+        s.notes["traces_validated_against_impl"] = heads
+    except core.OutsideSubset:
+        pass
+    except Exception as e:
+        s.notes["resolve_traces"] = "not applicable to this source: %r" % (e,)
+
     # the isotropy / covariance lemmas above ASSUME the C01 contract of the non-shear classes (prefactors 1/(5 e_i e_j), 1/(15 e_i e_j), 1/(3 e); which strain
     # fraction goes with which axis).  nonshear.py is one of this property's anchored files: the assumption is discharged here on the real classes by the
     # corresponding obligations of C01 (same obligation code, registered under this property)
@@ -413,15 +744,22 @@ def plumbing(s, tasks, keys, rnd):
 MANIFEST = {
     "engine": "symnp", "category": "other",
     "technique": "contract-based deductive verification of the lemmas (rank function, normalisation on symbolic arrays via z3, equality "
-                 "contract, isotropy/covariance as coefficient identities for all contract parameters); bounded run-time contracts for the work-list",
+                 "contract, isotropy/covariance as coefficient identities for all contract parameters) and of resolve()'s work-list loop (Hoare loop rule: "
+                 "the method's own statements executed on an abstract work list, invariant premises by z3); bounded run-time contracts for calculate / get_results",
     "text": "Discharged: (L1) every dependency of a shear key has strictly smaller rank (acyclic, depth <= 2) on the real get_dependencies "
             "for all 15 keys; (L2) _make_param_by_strain_key on a symbolic strain array of symbolic length returns e_i/sum e, e_k/sum e for "
             "the six non-shear keys; the equality/hash contract of task parameters over 21x21 keys; (L3) with the C01/C02 contracts "
             "(A, P, gap symbolic) for the non-shear inputs and the real scheduler + shear solver on top, the assembled tensor is isotropic for "
-            "equal strains and covariant under the 5 axis relabellings for all A, P, gap (coefficient identities) at enumerated strain fields. "
-            "Bounded: completeness, request-independence (value identical to the singleton request), closure and topological order over "
+            "equal strains and covariant under the 5 axis relabellings for all A, P, gap (coefficient identities) at enumerated strain fields; "
+            "(resolve) prefix, loop body and suffix of the real method are cut from its current AST and executed on an abstract work list / task list / graph "
+            "(tasks = classes of their parameters): initialisation, preservation over all four paths of the body and exit of a seven-clause invariant are "
+            "discharged for request lists, strain fields and dependency lists of any length -- every request has a task, no class twice, the list is closed "
+            "under get_dependencies, every edge raises the rank (acyclic) and, by networkx's contract, every dependency precedes its dependant in self.data; the "
+            "invariant is also evaluated at every loop head of concrete runs of the same pieces on the real classes (vacuity guard, pieces = function); the C01 "
+            "contract the lemmas assume is discharged on the real non-shear classes. Bounded: completeness, request-independence (value identical to the singleton request), closure and topological order over "
             "enumerated request sets/orders/histories with symbolic values.",
-    "note": "The work-list loop itself (lists, networkx DiGraph, allclose equality) is outside the deductive engines: bounded stand-in, "
+    "note": "Task identity is abstracted to an equivalence class (A-ALLCLOSE: allclose treated as transitive); termination of the work loop and the loops of "
+            "calculate() / get_results_by_strain_keys() are not mechanised: bounded stand-in, "
             "210 pairs + 42 full orders + 60 (quick) / 4000 (thorough) random requests per generic field, 5 strain fields, one 4-step "
             "history. Isotropy/covariance are unbounded in A, P, gap but enumerated in the strain field (3 quick / 13 thorough fields). "
             "networkx.topological_sort trusted; A-ALLCLOSE.",
